@@ -1,8 +1,1369 @@
-//! C04 — not built yet.
+//! C04 — Galois maps, rotations, conjugation and key switching act as documented.
+//!
+//! E1 sections:
+//!  * `tables`       GaloisTool alone, N = 2 … 8192: step -> element, default element set, index map, NTT
+//!                   permutation tables for EVERY odd g against the evaluation-order model; coefficient
+//!                   form `apply` against the naive m(X) -> m(X^g); `apply_ntt` against a naive NTT
+//!  * `galois_elt`   every odd g < 2N on ciphertexts (keys for all elements), every level, three schemes
+//!  * `rotate`       every step -(N/2-1)..N/2-1 with keys for exactly that step and with the default key
+//!                   set (NAF composition), column swap / conjugation, every level
+//!  * `keyswitch`    switching between two independent secret keys in both directions, every level
+//!  * `galois_plain` apply_galois_plain on coefficient-form (full and short) and NTT-form plaintexts
+
 use crate::engine::*;
+use crate::he::*;
+use crate::refmodel::bigu::{mul_mod, primes_1_mod};
+use crate::refmodel::galois as rg;
+use crate::refmodel::poly::{min_primitive_root_2n, naive_ntt, pgalois};
+use heathcliff::util::GaloisTool;
+use heathcliff::verif_hooks::NoiseMode;
+use heathcliff::*;
+use num_complex::Complex;
+use serde::{Deserialize, Serialize};
+use std::time::Duration;
 
-pub fn describe(_rep: &Report) {}
+pub fn describe(rep: &Report) {
+    rep.set_rule(
+        "tables: case = (log N, slice of the odd elements); every step / element of the slice is compared with the index model. \
+         ciphertext sections: case = (explicit parameter set, error script, CKKS scale, key mode); the case builds keys and loops over \
+         EVERY level x EVERY element resp. step x the whole plaintext alphabet (N unit monomials with coefficient 1 and t-1 resp. +-1.0, \
+         all unit slot vectors, one dense polynomial and one dense slot vector); each executed operation is decrypted and compared with \
+         the naive m(X)->m(X^g) (exact for BFV/BGV, within the a-priori bound for CKKS) and with the permuted decoded slots \
+         (traces_validated counts these comparisons). A (level, operation) pair whose a-priori noise bound exceeds the decryption \
+         threshold is counted as skipped inside the case and never judged. non-trivial = at least one operation of the case was judged.",
+    );
+    rep.assume("noise: fresh <= 21(2N+1)+(1+N)/2, each modulus switch adds <= (1+N)/2+1, each key switch adds <= 21*N*sum(q_i)/P+(1+N)/2 (x t for BGV); judged iff 8t(E+2) < q_level (CKKS: 4N(E+1)/scale < 0.2)");
+    rep.assume("rotate_rows / rotate_vector by s > 0 rotate LEFT (element 3^s mod 2N), s < 0 right (3^-|s|); column swap / conjugation = element 2N-1 (SEAL semantics, comments of util/galois.rs)");
+    rep.assume("create_keyswitching_key(new_key) on the generator of secret s yields a key that moves ciphertexts under new_key to s (doc comment of switch_key_inplace_internal); both directions between two generators are exercised");
+    rep.assume("a plaintext accepted by Evaluator::check_plaintext (coefficient form, coeff_count <= N, coefficients < t) is a valid operand of apply_galois_plain");
+    rep.assume("secret keys are sampled (seeded script); the error script is Real or AllMax (+21 everywhere)");
+}
 
-pub fn sections(_cfg: &RunCfg) -> Vec<Box<dyn AnySection>> {
-    vec![]
+// ------------------------------------------------------------------------------------------------
+// tables
+// ------------------------------------------------------------------------------------------------
+
+#[derive(Serialize, Deserialize, Clone, Debug)]
+pub struct TCase {
+    pub logn: usize,
+    /// this case covers the odd elements g = 2i+1 with i in [part*N/parts, (part+1)*N/parts)
+    pub part: usize,
+    pub parts: usize,
+    /// also run apply (coefficient form) on every element of the slice
+    pub coef: bool,
+    /// also run apply_ntt against a naive NTT of the substituted polynomial
+    pub eval: bool,
+    /// also run apply_ntt twice (table cache) on the identity vector
+    pub cache: bool,
+}
+
+fn small_ntt_prime(n: usize) -> Option<(u64, u64)> {
+    for bits in (n.trailing_zeros() as usize + 3)..24 {
+        if let Some(&q) = primes_1_mod(2 * n as u64, bits, 1).first() {
+            if let Some(psi) = min_primitive_root_2n(n, q) {
+                return Some((q, psi));
+            }
+        }
+    }
+    None
+}
+
+fn check_tables(c: &TCase) -> CaseOut {
+    let n = 1usize << c.logn;
+    let m = 2 * n;
+    let tool = match guard(|| GaloisTool::new(c.logn)) {
+        Ok(t) => t,
+        Err(p) => return CaseOut::fail(format!("tables:new:panic:{}", panic_class(&p)), format!("GaloisTool::new({}) succeeds", c.logn), p),
+    };
+    let mut steps = 0u64;
+    macro_rules! bad {
+        ($key:expr, $exp:expr, $obs:expr) => {
+            return CaseOut::fail(format!("tables:{}", $key), $exp, $obs)
+        };
+    }
+    if c.part == 0 {
+        // reference self-consistency (exponent model vs documented rotation)
+        if n <= 512 {
+            match rg::selfcheck(n) {
+                Ok(k) => steps += k,
+                Err(e) => bad!("reference-selfcheck", "model identities".to_string(), e),
+            }
+        }
+        // step -> element
+        let half = (n / 2) as isize;
+        let mut all_steps = vec![];
+        for s in -(half - 1).max(0)..=(half - 1).max(0) {
+            all_steps.push(s);
+            let exp = rg::elt_from_step(n, s);
+            match guard(|| tool.get_elt_from_step(s)) {
+                Ok(o) if o == exp => steps += 1,
+                Ok(o) => bad!(format!("get_elt_from_step:{}:wrong", if s < 0 { "neg" } else if s == 0 { "zero" } else { "pos" }), format!("N={n} step={s} -> {exp}"), format!("{o}")),
+                Err(p) => bad!(format!("get_elt_from_step:panic:{}", panic_class(&p)), format!("N={n} step={s} -> {exp}"), p),
+            }
+        }
+        match guard(|| tool.get_elts_from_steps(&all_steps)) {
+            Ok(v) => {
+                let exp: Vec<usize> = all_steps.iter().map(|&s| rg::elt_from_step(n, s)).collect();
+                if v != exp {
+                    bad!("get_elts_from_steps:wrong", format!("N={n} {exp:?}"), format!("{v:?}"));
+                }
+                steps += 1;
+            }
+            Err(p) => bad!(format!("get_elts_from_steps:panic:{}", panic_class(&p)), format!("N={n}: no panic"), p),
+        }
+        // out-of-range steps are refused
+        for s in [half, -half, half + 1, -(half + 1), n as isize, -(n as isize)] {
+            if s == 0 {
+                continue;
+            }
+            if let Ok(o) = guard(|| tool.get_elt_from_step(s)) {
+                bad!("get_elt_from_step:range:accepted", format!("N={n} step={s} refused (|step| >= N/2)"), format!("returned {o}"));
+            }
+            steps += 1;
+        }
+        // default element set
+        match guard(|| tool.get_elts_all()) {
+            Ok(v) => {
+                let mut got = v.clone();
+                got.sort();
+                got.dedup();
+                let exp = rg::default_elts(n);
+                if got != exp || v.iter().any(|&g| g % 2 == 0 || g >= m) {
+                    bad!("get_elts_all:wrong", format!("N={n} set {exp:?}"), format!("{v:?}"));
+                }
+                steps += 1;
+            }
+            Err(p) => bad!(format!("get_elts_all:panic:{}", panic_class(&p)), format!("N={n}: no panic"), p),
+        }
+        // index map
+        for g in (1..m).step_by(2) {
+            match guard(|| GaloisTool::get_index_from_elt(g)) {
+                Ok(i) if i == (g - 1) / 2 => {}
+                Ok(i) => bad!("get_index_from_elt:wrong", format!("g={g} -> {}", (g - 1) / 2), format!("{i}")),
+                Err(p) => bad!(format!("get_index_from_elt:panic:{}", panic_class(&p)), format!("g={g}: no panic"), p),
+            }
+        }
+        steps += n as u64;
+        if guard(|| GaloisTool::get_index_from_elt(2)).is_ok() {
+            bad!("get_index_from_elt:even:accepted", "even element refused".to_string(), "accepted".to_string());
+        }
+    }
+
+    let lo = c.part * n / c.parts;
+    let hi = (c.part + 1) * n / c.parts;
+    let ident: Vec<u64> = (0..n as u64).collect();
+    let eval_ctx = if c.eval { small_ntt_prime(n) } else { None };
+    let coef_moduli: Vec<u64> = if c.coef { vec![2, 257, 1024, *primes_1_mod(2 * n as u64, 60, 1).first().unwrap_or(&1152921504606846883)] } else { vec![] };
+    for i in lo..hi {
+        let g = 2 * i + 1;
+        let exp = rg::ntt_perm(n, g);
+        match guard(|| tool.generate_table_ntt(g)) {
+            Ok(t) if t == exp => steps += 1,
+            Ok(t) => {
+                let at = t.iter().zip(&exp).position(|(a, b)| a != b).unwrap_or(0);
+                bad!("generate_table_ntt:wrong", format!("N={n} g={g}: table[{at}]={}", exp.get(at).copied().unwrap_or(0)), format!("len={} table[{at}]={}", t.len(), t.get(at).copied().unwrap_or(0)));
+            }
+            Err(p) => bad!(format!("generate_table_ntt:panic:{}", panic_class(&p)), format!("N={n} g={g}: no panic"), p),
+        }
+        if c.cache {
+            for round in 0..2 {
+                let mut out = vec![0u64; n];
+                match guard(|| tool.apply_ntt(&ident, g, &mut out)) {
+                    Ok(()) => {
+                        if out.iter().zip(&exp).any(|(&o, &e)| o != e as u64) {
+                            bad!(format!("apply_ntt:{}:wrong", if round == 0 { "first" } else { "cached" }), format!("N={n} g={g}: {:?}", &exp[..n.min(16)]), format!("{:?}", &out[..n.min(16)]));
+                        }
+                        steps += 1;
+                    }
+                    Err(p) => bad!(format!("apply_ntt:panic:{}", panic_class(&p)), format!("N={n} g={g}: no panic"), p),
+                }
+            }
+        }
+        if c.coef {
+            for &q in &coef_moduli {
+                let md = Modulus::new(q);
+                // unit monomials with coefficient 1 and q-1, one dense polynomial
+                let mut polys: Vec<Vec<u64>> = vec![];
+                for k in 0..n {
+                    for v in [1u64, q - 1] {
+                        let mut a = vec![0u64; n];
+                        a[k] = v;
+                        polys.push(a);
+                    }
+                }
+                polys.push((0..n as u64).map(|j| mul_mod(j + 1, 0x9E37_79B9, q)).collect());
+                for a in &polys {
+                    let mut out = vec![0xDEADu64; n];
+                    match guard(|| tool.apply(a, g, &md, &mut out)) {
+                        Ok(()) => {
+                            let e = pgalois(a, g, q);
+                            if out != e {
+                                bad!("apply:coef:wrong", format!("N={n} g={g} q={q} a={:?} -> {:?}", &a[..n.min(16)], &e[..n.min(16)]), format!("{:?}", &out[..n.min(16)]));
+                            }
+                            steps += 1;
+                        }
+                        Err(p) => bad!(format!("apply:coef:panic:{}", panic_class(&p)), format!("N={n} g={g} q={q}: no panic"), p),
+                    }
+                }
+            }
+        }
+        if let Some((q, psi)) = eval_ctx {
+            for k in 0..n {
+                let mut a = vec![0u64; n];
+                a[k] = 1 + (k as u64 % (q - 1));
+                let fa = naive_ntt(&a, psi, q);
+                let fb = naive_ntt(&pgalois(&a, g, q), psi, q);
+                let mut out = vec![0u64; n];
+                match guard(|| tool.apply_ntt(&fa, g, &mut out)) {
+                    Ok(()) => {
+                        if out != fb {
+                            bad!("apply_ntt:eval:wrong", format!("N={n} g={g} q={q} psi={psi} monomial {k}: {:?}", &fb[..n.min(16)]), format!("{:?}", &out[..n.min(16)]));
+                        }
+                        steps += 1;
+                    }
+                    Err(p) => bad!(format!("apply_ntt:eval:panic:{}", panic_class(&p)), format!("N={n} g={g}: no panic"), p),
+                }
+            }
+        }
+    }
+    CaseOut::pass(true, h64(&(c.logn, c.coef, c.eval, c.cache, c.part == 0)), steps)
+}
+
+// ------------------------------------------------------------------------------------------------
+// ciphertext-level sections: common world
+// ------------------------------------------------------------------------------------------------
+
+#[derive(Serialize, Deserialize, Clone, Copy, Debug, PartialEq, Eq, Hash)]
+pub enum KeyMode {
+    /// keys generated for exactly the requested step (create_galois_keys_from_steps(&[s]))
+    Exact,
+    /// default power-of-two key set (create_galois_keys)
+    Default,
+}
+
+#[derive(Serialize, Deserialize, Clone, Debug, Hash)]
+pub struct SCase {
+    pub spec: ParamSpec,
+    /// script of the error samples (secret keys are always sampled)
+    pub err: Noise,
+    /// CKKS scale = 2^scale_bits (ignored otherwise)
+    pub scale_bits: u32,
+    pub keys: KeyMode,
+}
+
+struct World {
+    kit: Kit,
+    scheme: Scheme,
+    n: usize,
+    t: u64,
+    ids: Vec<ParmsID>,
+    /// log2 of the total modulus per data level
+    logq: Vec<f64>,
+    /// sum of the primes per data level (as f64)
+    sumq: Vec<f64>,
+    special: f64,
+    batching: bool,
+    benc: Option<BatchEncoder>,
+    cenc: Option<CKKSEncoder>,
+    scale: f64,
+    scale_bits: u32,
+    seed: u64,
+}
+
+fn world(c: &SCase, seed: u64, what: &str) -> Result<World, String> {
+    env(seed, h64(&(what, c)), NoiseMode::Real, c.err.mode());
+    let kit = guard(|| Kit::new(&c.spec)).map_err(|p| format!("context/key construction refused: {}", panic_class(&p)))??;
+    if !kit.ctx.using_keyswitching() {
+        return Err("no special prime: key switching unavailable".into());
+    }
+    let ids = kit.levels();
+    let mut logq = vec![];
+    let mut sumq = vec![];
+    for id in &ids {
+        let qs = kit.moduli_at(id);
+        logq.push(qs.iter().map(|&q| (q as f64).log2()).sum());
+        sumq.push(qs.iter().map(|&q| q as f64).sum());
+    }
+    let special = *c.spec.q.last().unwrap() as f64;
+    let scheme = c.spec.scheme;
+    let batching = kit.ctx.first_context_data().unwrap().qualifiers().using_batching;
+    let (benc, cenc) = if scheme == Scheme::CKKS { (None, Some(CKKSEncoder::new(kit.ctx.clone()))) } else { (Some(BatchEncoder::new(kit.ctx.clone())), None) };
+    Ok(World {
+        scheme,
+        n: c.spec.n,
+        t: c.spec.t,
+        ids,
+        logq,
+        sumq,
+        special,
+        batching,
+        benc,
+        cenc,
+        scale: 2f64.powi(c.scale_bits as i32),
+        scale_bits: c.scale_bits,
+        seed,
+        kit,
+    })
+}
+
+impl World {
+    /// a-priori bound (in units of the error polynomial) after `nks` key switches at `level`
+    fn noise(&self, level: usize, nks: usize) -> f64 {
+        let n = self.n as f64;
+        let fresh = 21.0 * (2.0 * n + 1.0) + (1.0 + n) / 2.0;
+        let ms = level as f64 * ((1.0 + n) / 2.0 + 1.0);
+        let ks = nks as f64 * (21.0 * n * self.sumq[level] / self.special + (1.0 + n) / 2.0);
+        fresh + ms + ks
+    }
+    /// Some((coefficient tolerance, slot tolerance)) if an operation with `nks` key switches at
+    /// `level` is inside the judged domain (tolerances are 0 for the exact schemes)
+    fn room(&self, level: usize, nks: usize) -> Option<(f64, f64)> {
+        let e = self.noise(level, nks);
+        if self.scheme == Scheme::CKKS {
+            if (self.scale_bits as f64) + 4.0 > self.logq[level] {
+                return None;
+            }
+            let tc = 4.0 * (e + 1.0) / self.scale;
+            let ts = tc * self.n as f64;
+            if ts < 0.2 {
+                Some((tc, ts))
+            } else {
+                None
+            }
+        } else if (8.0 * self.t as f64 * (e + 2.0)).log2() < self.logq[level] - 0.01 {
+            Some((0.0, 0.0))
+        } else {
+            None
+        }
+    }
+    fn lvl(level: usize) -> &'static str {
+        if level == 0 {
+            "L0"
+        } else {
+            "Llow"
+        }
+    }
+}
+
+#[derive(Clone, Debug, PartialEq)]
+enum Msg {
+    Mono(usize, bool),
+    DensePoly,
+    Slot(usize, u8),
+    DenseSlot,
+}
+
+impl Msg {
+    fn dense(&self) -> bool {
+        matches!(self, Msg::DensePoly | Msg::DenseSlot)
+    }
+}
+
+struct Enc {
+    msg: Msg,
+    pt: Plaintext,
+    /// BFV/BGV: coefficients of the plaintext polynomial, padded to N
+    coeffs: Vec<u64>,
+    /// BFV/BGV slot view (only for slot messages with batching)
+    slots: Option<Vec<u64>>,
+    /// CKKS slot view
+    cslots: Option<Vec<Complex<f64>>>,
+    /// CKKS polynomial view
+    rcoeffs: Option<Vec<f64>>,
+}
+
+fn alphabet(w: &World, poly: bool, slots: bool) -> Vec<Msg> {
+    let n = w.n;
+    let mut v = vec![];
+    if poly {
+        v.push(Msg::DensePoly);
+        for k in 0..n {
+            v.push(Msg::Mono(k, false));
+            v.push(Msg::Mono(k, true));
+        }
+    }
+    if slots {
+        if w.scheme == Scheme::CKKS {
+            v.push(Msg::DenseSlot);
+            for k in 0..n / 2 {
+                v.push(Msg::Slot(k, 0));
+                v.push(Msg::Slot(k, 1));
+            }
+        } else if w.batching {
+            v.push(Msg::DenseSlot);
+            for k in 0..n {
+                v.push(Msg::Slot(k, 0));
+            }
+            v.push(Msg::Slot(0, 1));
+            v.push(Msg::Slot(n - 1, 1));
+        }
+    }
+    v
+}
+
+fn encode(w: &World, msg: &Msg) -> Result<Enc, String> {
+    let n = w.n;
+    let t = w.t;
+    let mix = |i: usize| -> u64 { h64(&(w.seed, i as u64, "c04-fill")) };
+    guard(|| {
+        if w.scheme == Scheme::CKKS {
+            let ce = w.cenc.as_ref().unwrap();
+            match msg {
+                Msg::Mono(..) | Msg::DensePoly => {
+                    let mut v = vec![0f64; n];
+                    match msg {
+                        Msg::Mono(k, neg) => v[*k] = if *neg { -1.0 } else { 1.0 },
+                        _ => {
+                            for (i, x) in v.iter_mut().enumerate() {
+                                *x = (mix(i) % 9) as f64 * 0.25 - 1.0;
+                            }
+                            v[n - 1] = 0.75;
+                        }
+                    }
+                    let pt = ce.encode_f64_polynomial_new(&v, None, w.scale);
+                    Enc { msg: msg.clone(), pt, coeffs: vec![], slots: None, cslots: None, rcoeffs: Some(v) }
+                }
+                Msg::Slot(..) | Msg::DenseSlot => {
+                    let mut v = vec![Complex::new(0.0, 0.0); n / 2];
+                    match msg {
+                        Msg::Slot(k, kind) => v[*k] = if *kind == 0 { Complex::new(1.0, 0.0) } else { Complex::new(0.0, 1.0) },
+                        _ => {
+                            for (i, x) in v.iter_mut().enumerate() {
+                                *x = Complex::new((mix(i) % 5) as f64 * 0.5 - 1.0, (mix(i + n) % 5) as f64 * 0.5 - 0.75);
+                            }
+                        }
+                    }
+                    let pt = ce.encode_c64_array_new(&v, None, w.scale);
+                    Enc { msg: msg.clone(), pt, coeffs: vec![], slots: None, cslots: Some(v), rcoeffs: None }
+                }
+            }
+        } else {
+            let be = w.benc.as_ref().unwrap();
+            match msg {
+                Msg::Mono(..) | Msg::DensePoly => {
+                    let mut v = vec![0u64; n];
+                    let len;
+                    match msg {
+                        Msg::Mono(k, neg) => {
+                            v[*k] = if *neg { t - 1 } else { 1 };
+                            len = k + 1;
+                        }
+                        _ => {
+                            for (i, x) in v.iter_mut().enumerate() {
+                                *x = mix(i) % t;
+                            }
+                            v[n - 1] = 1 + mix(n) % (t - 1);
+                            len = n;
+                        }
+                    }
+                    // through the polynomial view of the encoder (short plaintext for low-degree monomials)
+                    let pt = be.encode_polynomial_new(&v[..len]);
+                    Enc { msg: msg.clone(), pt, coeffs: v, slots: None, cslots: None, rcoeffs: None }
+                }
+                Msg::Slot(..) | Msg::DenseSlot => {
+                    let mut v = vec![0u64; n];
+                    match msg {
+                        Msg::Slot(k, kind) => v[*k] = if *kind == 0 { 1 } else { t - 1 },
+                        _ => {
+                            for (i, x) in v.iter_mut().enumerate() {
+                                *x = mix(i + 7) % t;
+                            }
+                        }
+                    }
+                    let pt = be.encode_new(&v);
+                    let mut coeffs: Vec<u64> = pt.data().clone();
+                    coeffs.resize(n, 0);
+                    Enc { msg: msg.clone(), pt, coeffs, slots: Some(v), cslots: None, rcoeffs: None }
+                }
+            }
+        }
+    })
+    .map_err(|p| format!("encoding {msg:?} panicked: {p}"))
+}
+
+fn pgalois_f64(a: &[f64], g: usize) -> Vec<f64> {
+    let n = a.len();
+    let mut r = vec![0f64; n];
+    for i in 0..n {
+        let e = (i * g) % (2 * n);
+        if e < n {
+            r[e] += a[i];
+        } else {
+            r[e - n] -= a[i];
+        }
+    }
+    r
+}
+
+/// Compare a decrypted result with the action of the element `g` on the message.
+/// Err((view, expected, observed)).
+fn judge(w: &World, e: &Enc, g: usize, d: &Plaintext, tol: (f64, f64)) -> Result<u64, (String, String, String)> {
+    let n = w.n;
+    let mut cmp = 0u64;
+    if w.scheme == Scheme::CKKS {
+        let ce = w.cenc.as_ref().unwrap();
+        if let Some(rc) = &e.rcoeffs {
+            let obs = guard(|| ce.decode_polynomial_new(d)).map_err(|p| ("poly:decode-panic".to_string(), "decodable".to_string(), p))?;
+            let exp = pgalois_f64(rc, g);
+            if obs.len() != n || obs.iter().zip(&exp).any(|(o, x)| !((o - x).abs() <= tol.0 + 1e-7)) {
+                return Err(("poly".into(), format!("{exp:?} (tolerance {:e})", tol.0), format!("{obs:?}")));
+            }
+            cmp += 1;
+        }
+        if let Some(cs) = &e.cslots {
+            let obs = guard(|| ce.decode_new(d)).map_err(|p| ("slot:decode-panic".to_string(), "decodable".to_string(), p))?;
+            let perm = rg::ckks_slot_perm(n, g);
+            let exp: Vec<Complex<f64>> = perm.iter().map(|&(j, cj)| if cj { cs[j].conj() } else { cs[j] }).collect();
+            if obs.len() != n / 2 || obs.iter().zip(&exp).any(|(o, x)| !((o - x).norm() <= tol.1 + 1e-7)) {
+                return Err(("slot".into(), format!("{exp:?} (tolerance {:e})", tol.1), format!("{obs:?}")));
+            }
+            cmp += 1;
+        }
+    } else {
+        let mut obs: Vec<u64> = d.data()[..d.coeff_count().min(d.data().len())].to_vec();
+        if obs.len() > n {
+            return Err(("poly".into(), format!("at most {n} coefficients"), format!("{} coefficients", obs.len())));
+        }
+        obs.resize(n, 0);
+        let exp = pgalois(&e.coeffs, g, w.t);
+        if obs != exp {
+            return Err(("poly".into(), format!("{exp:?}"), format!("{obs:?}")));
+        }
+        cmp += 1;
+        if let Some(sl) = &e.slots {
+            let be = w.benc.as_ref().unwrap();
+            let obs = guard(|| be.decode_new(d)).map_err(|p| ("slot:decode-panic".to_string(), "decodable".to_string(), p))?;
+            let perm = rg::batch_slot_perm(n, g);
+            let exp: Vec<u64> = perm.iter().map(|&j| sl[j]).collect();
+            if obs != exp {
+                return Err(("slot".into(), format!("{exp:?}"), format!("{obs:?}")));
+            }
+            cmp += 1;
+        }
+    }
+    Ok(cmp)
+}
+
+/// slot-level oracle of the documented rotation (independent of the exponent model)
+fn judge_rotation(w: &World, e: &Enc, s: Option<isize>, d: &Plaintext, tol: (f64, f64)) -> Result<u64, (String, String, String)> {
+    let n = w.n;
+    if w.scheme == Scheme::CKKS {
+        if let Some(cs) = &e.cslots {
+            let ce = w.cenc.as_ref().unwrap();
+            let obs = guard(|| ce.decode_new(d)).map_err(|p| ("rot:decode-panic".to_string(), "decodable".to_string(), p))?;
+            let half = n / 2;
+            let exp: Vec<Complex<f64>> = match s {
+                Some(s) => (0..half).map(|i| cs[(i as isize + s).rem_euclid(half as isize) as usize]).collect(),
+                None => cs.iter().map(|c| c.conj()).collect(),
+            };
+            if obs.len() != half || obs.iter().zip(&exp).any(|(o, x)| !((o - x).norm() <= tol.1 + 1e-7)) {
+                return Err(("rot".into(), format!("{exp:?} (tolerance {:e})", tol.1), format!("{obs:?}")));
+            }
+            return Ok(1);
+        }
+    } else if let Some(sl) = &e.slots {
+        let be = w.benc.as_ref().unwrap();
+        let obs = guard(|| be.decode_new(d)).map_err(|p| ("rot:decode-panic".to_string(), "decodable".to_string(), p))?;
+        let exp = match s {
+            Some(s) => rg::rotate_rows_left(sl, s),
+            None => rg::swap_rows(sl),
+        };
+        if obs != exp {
+            return Err(("rot".into(), format!("{exp:?}"), format!("{obs:?}")));
+        }
+        return Ok(1);
+    }
+    Ok(0)
+}
+
+/// encrypt with `enc` at the first level and switch down: one ciphertext per (usable) data level
+fn ladder(w: &World, enc: &Encryptor, pt: &Plaintext, symmetric: bool) -> Result<Vec<Ciphertext>, String> {
+    guard(|| {
+        let first = if symmetric {
+            // seeds are only kept when a polynomial is long enough to hold one
+            let c = enc.encrypt_symmetric_new(pt);
+            if c.contains_seed() {
+                c.expand_seed(&w.kit.ctx)
+            } else {
+                c
+            }
+        } else {
+            enc.encrypt_new(pt)
+        };
+        let mut v = vec![first];
+        for l in 1..w.ids.len() {
+            // CKKS: levels too small for the scale are outside the domain (mod_switch refuses them)
+            if w.scheme == Scheme::CKKS && (w.scale_bits as f64) + 4.0 > w.logq[l] {
+                break;
+            }
+            let next = w.kit.eval.mod_switch_to_next_new(v.last().unwrap());
+            v.push(next);
+        }
+        v
+    })
+}
+
+struct Tally {
+    steps: u64,
+    skipped: u64,
+    ops: u64,
+}
+
+macro_rules! try_op {
+    ($sec:expr, $w:expr, $op:expr, $level:expr, $ctx:expr, $call:expr) => {
+        match guard(|| $call) {
+            Ok(v) => v,
+            Err(p) => {
+                return CaseOut::fail(
+                    format!("{}:{:?}:{}:{}:panic:{}", $sec, $w.scheme, $op, World::lvl($level), panic_class(&p)),
+                    format!("{} succeeds ({})", $op, $ctx),
+                    p,
+                )
+            }
+        }
+    };
+}
+
+fn finish(sec: &str, c: &SCase, t: &Tally) -> CaseOut {
+    if t.ops == 0 {
+        return CaseOut::skip(&format!("{sec}: every operation of this parameter set is beyond the a-priori noise bound"));
+    }
+    CaseOut::pass(true, h64(&(sec, c.spec.scheme, c.spec.n, c.spec.q.len(), t.skipped > 0, t.ops % 7)), t.steps)
+}
+
+fn forms_agree(sec: &str, w: &World, op: &str, level: usize, a: &Ciphertext, b: &Ciphertext, c: &Ciphertext) -> Option<CaseOut> {
+    let (fa, fb, fc) = (ct_fingerprint(a), ct_fingerprint(b), ct_fingerprint(c));
+    if fa != fb || fa != fc {
+        return Some(CaseOut::fail(
+            format!("{sec}:{:?}:{op}:{}:forms-differ", w.scheme, World::lvl(level)),
+            "in-place, destination and value-returning forms give identical ciphertexts",
+            format!("new: {} / inplace: {} / dest: {}", ct_meta(a), ct_meta(b), ct_meta(c)),
+        ));
+    }
+    None
+}
+
+// ------------------------------------------------------------------------------------------------
+// galois_elt
+// ------------------------------------------------------------------------------------------------
+
+fn check_galois(c: &SCase, seed: u64) -> CaseOut {
+    let sec = "galois";
+    let w = match world(c, seed, sec) {
+        Ok(w) => w,
+        Err(e) => return CaseOut::skip(&e),
+    };
+    let n = w.n;
+    let elts: Vec<usize> = (0..n).map(|i| 2 * i + 1).collect();
+    let gk = try_op!(sec, w, "create_galois_keys_from_elts", 0, format!("{} all odd elements", c.spec.label()), w.kit.keygen.create_galois_keys_from_elts(&elts, false));
+    for &g in &elts {
+        if !gk.has_key(g) {
+            return CaseOut::fail(format!("{sec}:{:?}:keygen:missing-key", w.scheme), format!("key for element {g} present"), "has_key = false");
+        }
+    }
+    let ev = &w.kit.eval;
+    let mut t = Tally { steps: 0, skipped: 0, ops: 0 };
+    // the Galois tool of every level (and of the key level) produces the model's tables
+    let mut tools = vec![w.kit.ctx.key_context_data().unwrap()];
+    tools.extend(w.ids.iter().map(|id| w.kit.ctx.get_context_data(id).unwrap()));
+    for cd in &tools {
+        for &g in &elts {
+            let tb = try_op!(sec, w, "generate_table_ntt", 0, format!("g={g}"), cd.verif_galois_tool().generate_table_ntt(g));
+            if tb != rg::ntt_perm(n, g) {
+                return CaseOut::fail(format!("{sec}:level-tool:generate_table_ntt:wrong"), format!("N={n} g={g}: {:?}", rg::ntt_perm(n, g)), format!("{tb:?}"));
+            }
+            t.steps += 1;
+        }
+    }
+    for msg in alphabet(&w, true, true) {
+        let e = match encode(&w, &msg) {
+            Ok(e) => e,
+            Err(p) => return CaseOut::fail(format!("{sec}:{:?}:encode:panic", w.scheme), "message encodable", p),
+        };
+        let cts = match ladder(&w, &w.kit.enc, &e.pt, false) {
+            Ok(v) => v,
+            Err(p) => return CaseOut::fail(format!("{sec}:{:?}:encrypt-or-modswitch:panic:{}", w.scheme, panic_class(&p)), "encrypt + mod_switch_to_next succeed", p),
+        };
+        t.skipped += ((w.ids.len() - cts.len()) * n) as u64;
+        for (level, ct) in cts.iter().enumerate() {
+            let Some(tol) = w.room(level, 1) else {
+                t.skipped += n as u64;
+                continue;
+            };
+            // the other representation (BFV in NTT form, BGV/CKKS in coefficient form) is either refused or handled correctly
+            if e.msg.dense() {
+                let other = if ct.is_ntt_form() { guard(|| ev.transform_from_ntt_new(ct)) } else { guard(|| ev.transform_to_ntt_new(ct)) };
+                if let Ok(other) = other {
+                    if let Ok(r) = guard(|| ev.apply_galois_new(&other, 3, &gk)) {
+                        let back = if r.is_ntt_form() == ct.is_ntt_form() { Ok(r.clone()) } else if r.is_ntt_form() { guard(|| ev.transform_from_ntt_new(&r)) } else { guard(|| ev.transform_to_ntt_new(&r)) };
+                        let ok = back.ok().and_then(|b| guard(|| w.kit.dec.decrypt_new(&b)).ok()).map(|d| judge(&w, &e, 3, &d, tol).is_ok()).unwrap_or(false);
+                        if !ok {
+                            return CaseOut::fail(
+                                format!("{sec}:{:?}:apply_galois:other-representation:computed-wrong", w.scheme),
+                                "a ciphertext in the representation the scheme does not use is refused (or mapped correctly)",
+                                format!("accepted {} and returned {} which does not decrypt to m(X^3)", ct_meta(&other), ct_meta(&r)),
+                            );
+                        }
+                    }
+                    t.steps += 1;
+                }
+            }
+            for &g in &elts {
+                let ctxs = || format!("{} level {level} g={g} msg={:?}", c.spec.label(), e.msg);
+                let r = try_op!(sec, w, "apply_galois", level, ctxs(), ev.apply_galois_new(ct, g, &gk));
+                t.ops += 1;
+                if r.parms_id() != ct.parms_id() || r.size() != 2 || r.is_ntt_form() != ct.is_ntt_form() || r.scale() != ct.scale() {
+                    return CaseOut::fail(format!("{sec}:{:?}:apply_galois:{}:metadata", w.scheme, World::lvl(level)), format!("metadata preserved ({})", ct_meta(ct)), ct_meta(&r));
+                }
+                let d = try_op!(sec, w, "decrypt-after-apply_galois", level, ctxs(), w.kit.dec.decrypt_new(&r));
+                match judge(&w, &e, g, &d, tol) {
+                    Ok(k) => t.steps += k,
+                    Err((view, exp, obs)) => {
+                        return CaseOut::fail(format!("{sec}:{:?}:apply_galois:{view}:{}:wrong", w.scheme, World::lvl(level)), format!("{}: {exp}", ctxs()), obs)
+                    }
+                }
+                if e.msg.dense() {
+                    let mut a = ct.clone();
+                    try_op!(sec, w, "apply_galois_inplace", level, ctxs(), ev.apply_galois_inplace(&mut a, g, &gk));
+                    let mut b = Ciphertext::new();
+                    try_op!(sec, w, "apply_galois(dest)", level, ctxs(), ev.apply_galois(ct, g, &gk, &mut b));
+                    if let Some(f) = forms_agree(sec, &w, "apply_galois", level, &r, &a, &b) {
+                        return f;
+                    }
+                    t.steps += 2;
+                }
+            }
+        }
+    }
+    // elements outside the group / without key are refused
+    let e = encode(&w, &Msg::DensePoly).unwrap();
+    if let Ok(cts) = ladder(&w, &w.kit.enc, &e.pt, false) {
+        let one = guard(|| w.kit.keygen.create_galois_keys_from_elts(&[3], false));
+        for (what, g, keys) in [("even", 2usize, Some(&gk)), ("beyond-2N", 2 * n + 1, Some(&gk)), ("no-key", 2 * n - 1, one.as_ref().ok())] {
+            let Some(keys) = keys else { continue };
+            if n == 2 && what == "no-key" {
+                continue; // 2N-1 = 3
+            }
+            if let Ok(r) = guard(|| ev.apply_galois_new(&cts[0], g, keys)) {
+                return CaseOut::fail(format!("{sec}:{:?}:apply_galois:{what}:accepted", w.scheme), format!("element {g} ({what}) refused"), ct_meta(&r));
+            }
+            t.steps += 1;
+        }
+    }
+    finish(sec, c, &t)
+}
+
+// ------------------------------------------------------------------------------------------------
+// rotate
+// ------------------------------------------------------------------------------------------------
+
+fn check_rotate(c: &SCase, seed: u64) -> CaseOut {
+    let sec = "rotate";
+    let w = match world(c, seed, sec) {
+        Ok(w) => w,
+        Err(e) => return CaseOut::skip(&e),
+    };
+    if w.scheme != Scheme::CKKS && !w.batching {
+        return CaseOut::skip("plain modulus does not support batching: rotations undefined");
+    }
+    let n = w.n;
+    let half = (n / 2) as isize;
+    let ckks = w.scheme == Scheme::CKKS;
+    let ev = &w.kit.eval;
+    let kg = &w.kit.keygen;
+    let (rot_name, conj_name) = if ckks { ("rotate_vector", "complex_conjugate") } else { ("rotate_rows", "rotate_columns") };
+    let mode = format!("{:?}", c.keys).to_lowercase();
+
+    // per-level Galois tools agree with the model
+    let mut t = Tally { steps: 0, skipped: 0, ops: 0 };
+    for id in &w.ids {
+        let cd = w.kit.ctx.get_context_data(id).unwrap();
+        for s in -(half - 1)..=(half - 1) {
+            let o = try_op!(sec, w, "get_elt_from_step", 0, format!("step {s}"), cd.verif_galois_tool().get_elt_from_step(s));
+            if o != rg::elt_from_step(n, s) {
+                return CaseOut::fail(format!("{sec}:level-tool:get_elt_from_step:wrong"), format!("N={n} step={s} -> {}", rg::elt_from_step(n, s)), format!("{o}"));
+            }
+        }
+    }
+
+    let default_keys = if c.keys == KeyMode::Default { Some(try_op!(sec, w, "create_galois_keys", 0, c.spec.label(), kg.create_galois_keys(false))) } else { None };
+    if let Some(dk) = &default_keys {
+        for g in rg::default_elts(n) {
+            if !dk.has_key(g) {
+                return CaseOut::fail(format!("{sec}:{:?}:create_galois_keys:missing-key", w.scheme), format!("default key set contains element {g}"), "has_key = false");
+            }
+        }
+    }
+    // exact keys: one key set per step (step 0 = conjugation element)
+    let mut exact: Vec<(isize, GaloisKeys)> = vec![];
+    if c.keys == KeyMode::Exact {
+        for s in -(half - 1)..=(half - 1) {
+            let k = try_op!(sec, w, "create_galois_keys_from_steps", 0, format!("{} step {s}", c.spec.label()), kg.create_galois_keys_from_steps(&[s], false));
+            if !k.has_key(rg::elt_from_step(n, s)) {
+                return CaseOut::fail(format!("{sec}:{:?}:create_galois_keys_from_steps:missing-key", w.scheme), format!("key for step {s} = element {} present", rg::elt_from_step(n, s)), "has_key = false");
+            }
+            exact.push((s, k));
+        }
+    }
+    let keys_for = |s: isize| -> &GaloisKeys {
+        match &default_keys {
+            Some(k) => k,
+            None => &exact.iter().find(|(x, _)| *x == s).unwrap().1,
+        }
+    };
+    // number of key switches the implementation may need for step s with the given key set
+    let nks = |s: isize| -> usize {
+        if c.keys == KeyMode::Exact || rg::default_elts(n).contains(&rg::elt_from_step(n, s)) {
+            1
+        } else {
+            rg::naf_ref(s as i64).len()
+        }
+    };
+
+    for msg in alphabet(&w, true, true) {
+        let e = match encode(&w, &msg) {
+            Ok(e) => e,
+            Err(p) => return CaseOut::fail(format!("{sec}:{:?}:encode:panic", w.scheme), "message encodable", p),
+        };
+        let cts = match ladder(&w, &w.kit.enc, &e.pt, false) {
+            Ok(v) => v,
+            Err(p) => return CaseOut::fail(format!("{sec}:{:?}:encrypt-or-modswitch:panic:{}", w.scheme, panic_class(&p)), "encrypt + mod_switch_to_next succeed", p),
+        };
+        t.skipped += (w.ids.len() - cts.len()) as u64;
+        for (level, ct) in cts.iter().enumerate() {
+            // rotations
+            for s in -(half - 1)..=(half - 1) {
+                let k = nks(s);
+                let Some(tol) = w.room(level, k) else {
+                    t.skipped += 1;
+                    continue;
+                };
+                let gk = keys_for(s);
+                let ctxs = || format!("{} level {level} step {s} keys={mode} msg={:?}", c.spec.label(), e.msg);
+                let opn = format!("{rot_name}:{mode}:{}", if k > 1 { "naf" } else { "direct" });
+                let r = if ckks {
+                    try_op!(sec, w, &opn, level, ctxs(), ev.rotate_vector_new(ct, s, gk))
+                } else {
+                    try_op!(sec, w, &opn, level, ctxs(), ev.rotate_rows_new(ct, s, gk))
+                };
+                t.ops += 1;
+                let d = try_op!(sec, w, "decrypt-after-rotation", level, ctxs(), w.kit.dec.decrypt_new(&r));
+                if s == 0 {
+                    // documented: rotation by 0 leaves the ciphertext unchanged
+                    if ct_fingerprint(&r) != ct_fingerprint(ct) {
+                        return CaseOut::fail(format!("{sec}:{:?}:{rot_name}:zero-step:changed", w.scheme), "step 0 returns the operand unchanged", ct_meta(&r));
+                    }
+                    t.steps += 1;
+                    continue;
+                }
+                let g = rg::elt_from_step(n, s);
+                let res = judge(&w, &e, g, &d, tol).and_then(|a| judge_rotation(&w, &e, Some(s), &d, tol).map(|b| a + b));
+                match res {
+                    Ok(k) => t.steps += k,
+                    Err((view, exp, obs)) => {
+                        return CaseOut::fail(format!("{sec}:{:?}:{opn}:{view}:{}:{}:wrong", w.scheme, if s < 0 { "neg" } else { "pos" }, World::lvl(level)), format!("{}: {exp}", ctxs()), obs)
+                    }
+                }
+                if e.msg.dense() {
+                    let mut a = ct.clone();
+                    let mut b = Ciphertext::new();
+                    if ckks {
+                        try_op!(sec, w, "rotate_vector_inplace", level, ctxs(), ev.rotate_vector_inplace(&mut a, s, gk));
+                        try_op!(sec, w, "rotate_vector(dest)", level, ctxs(), ev.rotate_vector(ct, s, gk, &mut b));
+                    } else {
+                        try_op!(sec, w, "rotate_rows_inplace", level, ctxs(), ev.rotate_rows_inplace(&mut a, s, gk));
+                        try_op!(sec, w, "rotate_rows(dest)", level, ctxs(), ev.rotate_rows(ct, s, gk, &mut b));
+                    }
+                    if let Some(f) = forms_agree(sec, &w, rot_name, level, &r, &a, &b) {
+                        return f;
+                    }
+                    t.steps += 2;
+                }
+            }
+            // column swap / conjugation
+            let Some(tol) = w.room(level, 1) else {
+                t.skipped += 1;
+                continue;
+            };
+            let gk = keys_for(0);
+            let ctxs = || format!("{} level {level} {conj_name} keys={mode} msg={:?}", c.spec.label(), e.msg);
+            let r = if ckks {
+                try_op!(sec, w, conj_name, level, ctxs(), ev.complex_conjugate_new(ct, gk))
+            } else {
+                try_op!(sec, w, conj_name, level, ctxs(), ev.rotate_columns_new(ct, gk))
+            };
+            t.ops += 1;
+            let d = try_op!(sec, w, "decrypt-after-conjugation", level, ctxs(), w.kit.dec.decrypt_new(&r));
+            let res = judge(&w, &e, 2 * n - 1, &d, tol).and_then(|a| judge_rotation(&w, &e, None, &d, tol).map(|b| a + b));
+            match res {
+                Ok(k) => t.steps += k,
+                Err((view, exp, obs)) => return CaseOut::fail(format!("{sec}:{:?}:{conj_name}:{mode}:{view}:{}:wrong", w.scheme, World::lvl(level)), format!("{}: {exp}", ctxs()), obs),
+            }
+            if e.msg.dense() {
+                let mut a = ct.clone();
+                let mut b = Ciphertext::new();
+                if ckks {
+                    try_op!(sec, w, "complex_conjugate_inplace", level, ctxs(), ev.complex_conjugate_inplace(&mut a, gk));
+                    try_op!(sec, w, "complex_conjugate(dest)", level, ctxs(), ev.complex_conjugate(ct, gk, &mut b));
+                } else {
+                    try_op!(sec, w, "rotate_columns_inplace", level, ctxs(), ev.rotate_columns_inplace(&mut a, gk));
+                    try_op!(sec, w, "rotate_columns(dest)", level, ctxs(), ev.rotate_columns(ct, gk, &mut b));
+                }
+                if let Some(f) = forms_agree(sec, &w, conj_name, level, &r, &a, &b) {
+                    return f;
+                }
+                t.steps += 2;
+            }
+        }
+    }
+    // steps of magnitude >= N/2 are refused
+    let e = encode(&w, &Msg::DenseSlot).unwrap();
+    if let Ok(cts) = ladder(&w, &w.kit.enc, &e.pt, false) {
+        let gk = keys_for(0);
+        for s in [half, -half, half + 1] {
+            let r = if ckks { guard(|| ev.rotate_vector_new(&cts[0], s, gk)) } else { guard(|| ev.rotate_rows_new(&cts[0], s, gk)) };
+            if let Ok(r) = r {
+                return CaseOut::fail(format!("{sec}:{:?}:{rot_name}:step-range:accepted", w.scheme), format!("step {s} (|s| >= N/2 = {half}) refused"), ct_meta(&r));
+            }
+            t.steps += 1;
+        }
+    }
+    finish(sec, c, &t)
+}
+
+// ------------------------------------------------------------------------------------------------
+// keyswitch
+// ------------------------------------------------------------------------------------------------
+
+fn check_keyswitch(c: &SCase, seed: u64) -> CaseOut {
+    let sec = "keyswitch";
+    let w = match world(c, seed, sec) {
+        Ok(w) => w,
+        Err(e) => return CaseOut::skip(&e),
+    };
+    let ctx = w.kit.ctx.clone();
+    let ev = &w.kit.eval;
+    // second, independent key owner on the same context
+    let other = try_op!(sec, w, "KeyGenerator::new", 0, "second key".to_string(), KeyGenerator::new(ctx.clone()));
+    if other.secret_key().data() == w.kit.sk.data() {
+        return CaseOut::skip("the two sampled secret keys coincide");
+    }
+    let pk_b = other.create_public_key(false);
+    let enc_b = Encryptor::new(ctx.clone()).set_public_key(pk_b).set_secret_key(other.secret_key().clone());
+    let dec_b = Decryptor::new(ctx.clone(), other.secret_key().clone());
+    // B -> A : key generated by A's generator for B's secret; A -> B : the converse
+    let ksk_b2a = try_op!(sec, w, "create_keyswitching_key", 0, c.spec.label(), w.kit.keygen.create_keyswitching_key(other.secret_key(), false));
+    let ksk_a2b = try_op!(sec, w, "create_keyswitching_key", 0, c.spec.label(), other.create_keyswitching_key(&w.kit.sk, false));
+    let mut t = Tally { steps: 0, skipped: 0, ops: 0 };
+    for msg in alphabet(&w, true, true) {
+        let e = match encode(&w, &msg) {
+            Ok(e) => e,
+            Err(p) => return CaseOut::fail(format!("{sec}:{:?}:encode:panic", w.scheme), "message encodable", p),
+        };
+        for (dir, src_enc, ksk, dst_dec, symmetric) in [("B->A", &enc_b, &ksk_b2a, &w.kit.dec, false), ("A->B", &w.kit.enc, &ksk_a2b, &dec_b, true)] {
+            let cts = match ladder(&w, src_enc, &e.pt, symmetric) {
+                Ok(v) => v,
+                Err(p) => return CaseOut::fail(format!("{sec}:{:?}:encrypt-or-modswitch:panic:{}", w.scheme, panic_class(&p)), "encrypt + mod_switch_to_next succeed", p),
+            };
+            for (level, ct) in cts.iter().enumerate() {
+                let Some(tol) = w.room(level, 1) else {
+                    t.skipped += 1;
+                    continue;
+                };
+                let ctxs = || format!("{} level {level} {dir} msg={:?}", c.spec.label(), e.msg);
+                let r = try_op!(sec, w, "apply_keyswitching", level, ctxs(), ev.apply_keyswitching_new(ct, ksk));
+                t.ops += 1;
+                if r.parms_id() != ct.parms_id() || r.size() != 2 || r.is_ntt_form() != ct.is_ntt_form() || r.scale() != ct.scale() || r.correction_factor() != ct.correction_factor() {
+                    return CaseOut::fail(format!("{sec}:{:?}:apply_keyswitching:{}:metadata", w.scheme, World::lvl(level)), format!("metadata preserved ({})", ct_meta(ct)), ct_meta(&r));
+                }
+                let d = try_op!(sec, w, "decrypt-after-keyswitch", level, ctxs(), dst_dec.decrypt_new(&r));
+                match judge(&w, &e, 1, &d, tol) {
+                    Ok(k) => t.steps += k,
+                    Err((view, exp, obs)) => return CaseOut::fail(format!("{sec}:{:?}:apply_keyswitching:{view}:{}:wrong", w.scheme, World::lvl(level)), format!("{}: {exp}", ctxs()), obs),
+                }
+                if e.msg.dense() {
+                    let mut a = ct.clone();
+                    try_op!(sec, w, "apply_keyswitching_inplace", level, ctxs(), ev.apply_keyswitching_inplace(&mut a, ksk));
+                    let mut b = Ciphertext::new();
+                    try_op!(sec, w, "apply_keyswitching(dest)", level, ctxs(), ev.apply_keyswitching(ct, ksk, &mut b));
+                    if let Some(f) = forms_agree(sec, &w, "apply_keyswitching", level, &r, &a, &b) {
+                        return f;
+                    }
+                    t.steps += 2;
+                }
+            }
+        }
+        // a seeded (unexpanded) symmetric ciphertext is not a two-component ciphertext yet: it must be
+        // refused, or — if accepted — still switch to the right plaintext
+        if e.msg.dense() && w.room(0, 1).is_some() {
+            let tol = w.room(0, 1).unwrap();
+            if let Ok(seeded) = guard(|| w.kit.enc.encrypt_symmetric_new(&e.pt)) {
+                if seeded.contains_seed() {
+                    if let Ok(r) = guard(|| ev.apply_keyswitching_new(&seeded, &ksk_a2b)) {
+                        let ok = guard(|| dec_b.decrypt_new(&r)).ok().map(|d| judge(&w, &e, 1, &d, tol).is_ok()).unwrap_or(false);
+                        if !ok {
+                            return CaseOut::fail(
+                                format!("{sec}:{:?}:apply_keyswitching:seeded:computed-on-seed", w.scheme),
+                                "an unexpanded seeded ciphertext is refused (or switched correctly)",
+                                format!("accepted; result {} does not decrypt to the plaintext", ct_meta(&r)),
+                            );
+                        }
+                    }
+                    t.steps += 1;
+                }
+            }
+        }
+    }
+    finish(sec, c, &t)
+}
+
+// ------------------------------------------------------------------------------------------------
+// galois_plain
+// ------------------------------------------------------------------------------------------------
+
+fn plain_forms_agree(w: &World, form: &str, a: &Plaintext, b: &Plaintext, c: &Plaintext) -> Option<CaseOut> {
+    let (fa, fb, fc) = (pt_fingerprint(a), pt_fingerprint(b), pt_fingerprint(c));
+    if fa != fb || fa != fc {
+        return Some(CaseOut::fail(format!("plain:{:?}:{form}:forms-differ", w.scheme), "in-place, destination and value-returning forms give identical plaintexts", "they differ"));
+    }
+    None
+}
+
+#[derive(Serialize, Deserialize, Clone, Debug, Hash)]
+pub struct PCase {
+    pub base: SCase,
+    /// true: only coefficient-form plaintexts SHORTER than N (as produced by encode_polynomial / resize) and the empty one;
+    /// false: N-coefficient and NTT-form plaintexts
+    pub short: bool,
+}
+
+fn check_plain(pc: &PCase, seed: u64) -> CaseOut {
+    let sec = "plain";
+    let c = &pc.base;
+    if pc.short && c.spec.scheme == Scheme::CKKS {
+        return CaseOut::skip("CKKS has no coefficient-form plaintexts");
+    }
+    let w = match world(c, seed, sec) {
+        Ok(w) => w,
+        Err(e) => return CaseOut::skip(&e),
+    };
+    let n = w.n;
+    let ev = &w.kit.eval;
+    let elts: Vec<usize> = (0..n).map(|i| 2 * i + 1).collect();
+    let mut t = Tally { steps: 0, skipped: 0, ops: 0 };
+    let perms: Vec<Vec<usize>> = elts.iter().map(|&g| rg::ntt_perm(n, g)).collect();
+    for msg in alphabet(&w, true, true) {
+        let e = match encode(&w, &msg) {
+            Ok(e) => e,
+            Err(p) => return CaseOut::fail(format!("{sec}:{:?}:encode:panic", w.scheme), "message encodable", p),
+        };
+        if w.scheme != Scheme::CKKS {
+            // coefficient form: as encoded (short for low-degree monomials) and padded to N
+            let mut full = e.pt.clone();
+            full.resize(n);
+            let variants: Vec<(&str, &Plaintext)> = if pc.short {
+                if e.pt.coeff_count() < n {
+                    vec![("short", &e.pt)]
+                } else {
+                    vec![]
+                }
+            } else {
+                vec![("full", &full)]
+            };
+            for (shape, p) in variants {
+                for &g in &elts {
+                    let ctxs = || format!("{} coefficient form ({shape}, {} coefficients) g={g} msg={:?}", c.spec.label(), p.coeff_count(), e.msg);
+                    let r = match guard(|| ev.apply_galois_plain_new(p, g)) {
+                        Ok(r) => r,
+                        Err(pn) => {
+                            return CaseOut::fail(format!("{sec}:apply_galois_plain:coef:{shape}:panic:{}", panic_class(&pn)), format!("{}: a valid plaintext is accepted", ctxs()), pn)
+                        }
+                    };
+                    t.ops += 1;
+                    if r.is_ntt_form() {
+                        return CaseOut::fail(format!("{sec}:apply_galois_plain:coef:{shape}:form-changed"), "result stays in coefficient form", "NTT form");
+                    }
+                    match judge(&w, &e, g, &r, (0.0, 0.0)) {
+                        Ok(k) => t.steps += k,
+                        Err((view, exp, obs)) => return CaseOut::fail(format!("{sec}:apply_galois_plain:coef:{shape}:{view}:wrong"), format!("{}: {exp}", ctxs()), obs),
+                    }
+                    if e.msg.dense() || shape == "short" && g == 3 {
+                        let mut a = p.clone();
+                        let mut b = Plaintext::new();
+                        if guard(|| ev.apply_galois_plain_inplace(&mut a, g)).is_err() || guard(|| ev.apply_galois_plain(p, g, &mut b)).is_err() {
+                            return CaseOut::fail(format!("{sec}:apply_galois_plain:coef:{shape}:forms-panic"), "all three forms accept the operand", "in-place or destination form panicked");
+                        }
+                        if let Some(f) = plain_forms_agree(&w, "coef", &r, &a, &b) {
+                            return f;
+                        }
+                        t.steps += 2;
+                    }
+                }
+            }
+            // NTT form at every level
+            for (level, id) in w.ids.iter().enumerate() {
+                if pc.short {
+                    break;
+                }
+                let pn = try_op!(sec, w, "transform_plain_to_ntt", level, format!("{:?}", e.msg), ev.transform_plain_to_ntt_new(&e.pt, id));
+                let k = w.kit.moduli_at(id).len();
+                for (gi, &g) in elts.iter().enumerate() {
+                    let ctxs = || format!("{} NTT form level {level} g={g} msg={:?}", c.spec.label(), e.msg);
+                    let r = try_op!(sec, w, "apply_galois_plain:ntt", level, ctxs(), ev.apply_galois_plain_new(&pn, g));
+                    t.ops += 1;
+                    // (1) permutation of every residue polynomial by the evaluation-order model
+                    let mut exp = vec![0u64; k * n];
+                    for j in 0..k {
+                        for i in 0..n {
+                            exp[j * n + i] = pn.data()[j * n + perms[gi][i]];
+                        }
+                    }
+                    if r.data() != &exp || r.parms_id() != pn.parms_id() || r.coeff_count() != pn.coeff_count() {
+                        return CaseOut::fail(format!("{sec}:{:?}:apply_galois_plain:ntt:{}:wrong", w.scheme, World::lvl(level)), format!("{}: {:?}", ctxs(), &exp[..n]), format!("{:?}", &r.data()[..n.min(r.data().len())]));
+                    }
+                    // (2) equals the transform of the substituted polynomial
+                    let sub = w.kit.plain(&pgalois(&e.coeffs, g, w.t));
+                    let exp2 = try_op!(sec, w, "transform_plain_to_ntt", level, ctxs(), ev.transform_plain_to_ntt_new(&sub, id));
+                    if r.data() != exp2.data() {
+                        return CaseOut::fail(format!("{sec}:{:?}:apply_galois_plain:ntt-vs-transform:{}:wrong", w.scheme, World::lvl(level)), format!("{}: NTT(m(X^g)) = {:?}", ctxs(), &exp2.data()[..n]), format!("{:?}", &r.data()[..n]));
+                    }
+                    t.steps += 2;
+                    if e.msg.dense() {
+                        let mut a = pn.clone();
+                        let mut b = Plaintext::new();
+                        try_op!(sec, w, "apply_galois_plain_inplace:ntt", level, ctxs(), ev.apply_galois_plain_inplace(&mut a, g));
+                        try_op!(sec, w, "apply_galois_plain(dest):ntt", level, ctxs(), ev.apply_galois_plain(&pn, g, &mut b));
+                        if let Some(f) = plain_forms_agree(&w, "ntt", &r, &a, &b) {
+                            return f;
+                        }
+                        t.steps += 2;
+                    }
+                }
+            }
+        } else {
+            let ce = w.cenc.as_ref().unwrap();
+            for (level, id) in w.ids.iter().enumerate() {
+                if (w.scale_bits as f64) + 4.0 > w.logq[level] {
+                    t.skipped += 1;
+                    continue;
+                }
+                let pn = match (&e.rcoeffs, &e.cslots) {
+                    (Some(v), _) => try_op!(sec, w, "encode_f64_polynomial", level, format!("{:?}", e.msg), ce.encode_f64_polynomial_new(v, Some(*id), w.scale)),
+                    (_, Some(v)) => try_op!(sec, w, "encode_c64_array", level, format!("{:?}", e.msg), ce.encode_c64_array_new(v, Some(*id), w.scale)),
+                    _ => unreachable!(),
+                };
+                let k = w.kit.moduli_at(id).len();
+                // encoding error only: N/2 per coefficient at most
+                let tc = 4.0 / w.scale;
+                let tol = (tc, tc * n as f64);
+                for (gi, &g) in elts.iter().enumerate() {
+                    let ctxs = || format!("{} CKKS plaintext level {level} g={g} msg={:?}", c.spec.label(), e.msg);
+                    let r = try_op!(sec, w, "apply_galois_plain:ntt", level, ctxs(), ev.apply_galois_plain_new(&pn, g));
+                    t.ops += 1;
+                    let mut exp = vec![0u64; k * n];
+                    for j in 0..k {
+                        for i in 0..n {
+                            exp[j * n + i] = pn.data()[j * n + perms[gi][i]];
+                        }
+                    }
+                    if r.data() != &exp || r.parms_id() != pn.parms_id() || r.scale() != pn.scale() {
+                        return CaseOut::fail(format!("{sec}:{:?}:apply_galois_plain:ntt:{}:wrong", w.scheme, World::lvl(level)), format!("{}: {:?}", ctxs(), &exp[..n]), format!("{:?}", &r.data()[..n.min(r.data().len())]));
+                    }
+                    match judge(&w, &e, g, &r, tol) {
+                        Ok(k) => t.steps += 1 + k,
+                        Err((view, exp, obs)) => return CaseOut::fail(format!("{sec}:{:?}:apply_galois_plain:{view}:{}:wrong", w.scheme, World::lvl(level)), format!("{}: {exp}", ctxs()), obs),
+                    }
+                    if e.msg.dense() {
+                        let mut a = pn.clone();
+                        let mut b = Plaintext::new();
+                        try_op!(sec, w, "apply_galois_plain_inplace:ntt", level, ctxs(), ev.apply_galois_plain_inplace(&mut a, g));
+                        try_op!(sec, w, "apply_galois_plain(dest):ntt", level, ctxs(), ev.apply_galois_plain(&pn, g, &mut b));
+                        if let Some(f) = plain_forms_agree(&w, "ntt", &r, &a, &b) {
+                            return f;
+                        }
+                        t.steps += 2;
+                    }
+                }
+            }
+        }
+    }
+    if w.scheme != Scheme::CKKS && pc.short {
+        // the empty plaintext is the zero polynomial
+        let p = Plaintext::new();
+        match guard(|| ev.apply_galois_plain_new(&p, 3)) {
+            Ok(r) => {
+                if r.data().iter().any(|&x| x != 0) {
+                    return CaseOut::fail(format!("{sec}:apply_galois_plain:coef:empty:wrong"), "zero polynomial", format!("{:?}", r.data()));
+                }
+                t.steps += 1;
+            }
+            Err(pn) => return CaseOut::fail(format!("{sec}:apply_galois_plain:coef:empty:panic:{}", panic_class(&pn)), "the empty (zero) plaintext is accepted", pn),
+        }
+    }
+    if w.scheme != Scheme::CKKS && !pc.short {
+        // invalid elements refused
+        let e = encode(&w, &Msg::DensePoly).unwrap();
+        for g in [2usize, 2 * n + 1] {
+            if guard(|| ev.apply_galois_plain_new(&e.pt, g)).is_ok() {
+                return CaseOut::fail(format!("{sec}:{:?}:apply_galois_plain:bad-element:accepted", w.scheme), format!("element {g} refused"), "accepted");
+            }
+            t.steps += 1;
+        }
+    }
+    finish(sec, c, &t)
+}
+
+// ------------------------------------------------------------------------------------------------
+// enumeration
+// ------------------------------------------------------------------------------------------------
+
+fn chains(thorough: bool) -> Vec<Vec<usize>> {
+    let mut v = vec![
+        vec![40, 40, 50],     // special prime largest
+        vec![30, 40, 50, 60], // ascending
+        vec![60, 50, 40, 45], // descending data primes, special in the middle
+        vec![50, 50, 30],     // special prime SMALLEST: key-switching noise large
+        vec![45, 46],         // single data level
+    ];
+    if thorough {
+        v.push(vec![60, 60, 60, 60]);
+        v.push(vec![35, 36, 37, 38, 39]);
+    }
+    v
+}
+
+fn specs(ns: &[usize], thorough: bool, with_nonbatching: bool) -> Vec<SCase> {
+    let mut out = vec![];
+    for &n in ns {
+        for bits in chains(thorough) {
+            let q = chain(n, &bits);
+            for scheme in Scheme::all() {
+                if scheme == Scheme::CKKS {
+                    for sb in [30u32, 40] {
+                        out.push(SCase { spec: ParamSpec::new(scheme, n, q.clone(), 0), err: Noise::Real, scale_bits: sb, keys: KeyMode::Exact });
+                    }
+                } else {
+                    let mut ts = vec![257u64, 65537];
+                    if with_nonbatching {
+                        ts.push(1024);
+                    }
+                    for t in ts {
+                        out.push(SCase { spec: ParamSpec::new(scheme, n, q.clone(), t), err: Noise::Real, scale_bits: 0, keys: KeyMode::Exact });
+                    }
+                }
+            }
+        }
+    }
+    // simplest first
+    out.sort_by_key(|c| (c.spec.n, c.spec.q.len()));
+    out
+}
+
+fn with_err(mut v: Vec<SCase>, thorough: bool) -> Vec<SCase> {
+    // worst-case error script on the first chain of every (N, scheme) (thorough: everywhere)
+    let extra: Vec<SCase> = v
+        .iter()
+        .filter(|c| thorough || (c.spec.q.len() == 3 && (c.spec.t == 257 || c.scale_bits == 40)))
+        .map(|c| SCase { err: Noise::AllMax, ..c.clone() })
+        .collect();
+    v.extend(extra);
+    v
+}
+
+pub fn sections(cfg: &RunCfg) -> Vec<Box<dyn AnySection>> {
+    let seed = cfg.seed;
+    let thorough = cfg.thorough();
+    let mut v: Vec<Box<dyn AnySection>> = vec![];
+
+    // tables
+    let mut tc = vec![];
+    let (coef_max, eval_max, cache_max) = if thorough { (9, 7, 11) } else { (7, 6, 10) };
+    for logn in 1..=13usize {
+        let n = 1usize << logn;
+        let parts = ((n * n) >> 21).max(1).min(n);
+        for part in 0..parts {
+            tc.push(TCase { logn, part, parts, coef: logn <= coef_max, eval: logn <= eval_max, cache: logn <= cache_max });
+        }
+    }
+    v.push(
+        E1::new(
+            "tables",
+            &format!(
+                "N = 2..8192: every step |s| < N/2 (+ refusals), default element set, index map, generate_table_ntt for EVERY odd g < 2N; \
+                 apply (coefficient form, 4 moduli, 2N unit monomials + dense) for N <= {}; apply_ntt vs naive NTT of m(X^g) for N <= {}; apply_ntt cache for N <= {}",
+                1 << coef_max,
+                1 << eval_max,
+                1 << cache_max
+            ),
+            tc.into_iter(),
+            check_tables,
+        )
+        .deadline(Duration::from_secs(120)),
+    );
+
+    let ns: Vec<usize> = if thorough { vec![4, 8, 16, 32, 64] } else { vec![4, 8, 16, 32] };
+
+    let cases = with_err(specs(&ns, thorough, true), thorough);
+    v.push(
+        E1::new(
+            "galois_elt",
+            &format!("N in {ns:?} x 5 chains with special prime (thorough 7) x BFV/BGV (t = 257, 65537, 1024) / CKKS (scale 2^30, 2^40) x every level x EVERY odd g < 2N x alphabet (2N monomials, dense, unit slot vectors, dense slots)"),
+            cases.into_iter(),
+            move |c: &SCase| check_galois(c, seed),
+        )
+        .deadline(Duration::from_secs(300)),
+    );
+
+    // rotations (3-term NAF and the skipped N/2 term first occur at N = 32 with the default key set)
+    let mut cases = vec![];
+    for base in with_err(specs(&ns, thorough, false), thorough) {
+        for keys in [KeyMode::Exact, KeyMode::Default] {
+            cases.push(SCase { keys, ..base.clone() });
+        }
+    }
+    if thorough {
+        // 4-term NAF decompositions first occur at N = 128
+        for base in specs(&[128], false, false) {
+            if base.spec.q.len() == 3 && base.spec.q[0] < (1 << 41) && (base.spec.t == 257 || base.scale_bits == 40) {
+                cases.push(SCase { keys: KeyMode::Default, ..base });
+            }
+        }
+    }
+    v.push(
+        E1::new(
+            "rotate",
+            &format!("N in {ns:?} (thorough: + N=128, default keys, one chain) x chains x schemes (batching t) x every level x EVERY step -(N/2-1)..N/2-1 x {{keys for exactly that step, default key set}} + column swap / conjugation x alphabet"),
+            cases.into_iter(),
+            move |c: &SCase| check_rotate(c, seed),
+        )
+        .deadline(Duration::from_secs(300)),
+    );
+
+    let cases = with_err(specs(&ns, thorough, true), thorough);
+    v.push(
+        E1::new(
+            "keyswitch",
+            "same parameter sets x every level x both directions between two independent secret keys (public-key and symmetric sources) x alphabet; seeded source refused",
+            cases.into_iter(),
+            move |c: &SCase| check_keyswitch(c, seed),
+        )
+        .deadline(Duration::from_secs(300)),
+    );
+
+    let cases: Vec<PCase> = specs(&ns, thorough, true)
+        .into_iter()
+        .filter(|c| c.scale_bits != 30)
+        .flat_map(|c| [false, true].into_iter().map(move |short| PCase { base: c.clone(), short }))
+        .filter(|p| !(p.short && p.base.spec.scheme == Scheme::CKKS))
+        .collect();
+    v.push(
+        E1::new(
+            "galois_plain",
+            "same parameter sets x EVERY odd g x {coefficient form with N coefficients + NTT form at every level, coefficient form of every shorter length 0..N-1} x alphabet",
+            cases.into_iter(),
+            move |c: &PCase| check_plain(c, seed),
+        )
+        .deadline(Duration::from_secs(300)),
+    );
+    v
 }
